@@ -1,5 +1,6 @@
 (* evaluators used by generated cases files; depends on the model only *)
-From Coq Require Import List NArith ZArith Bool Uint63.
+From Coq Require Import List NArith ZArith Bool.
+From Coq Require Export Uint63.
 From K.Model Require Export C01.
 Import ListNotations.
 Local Open Scope N_scope.
